@@ -1142,11 +1142,24 @@ def schema_tie_check():
 
 def generate():
     info = gen_registry.generate()
+    # translator tie (bld-compiler): regenerate coq/Gen/SrcLookup.v (types.function_lookup, _bases) and
+    # coq/Gen/SrcCompiler.v (ORDER BY / GROUP BY / PIVOT BY resolution, the aggregate walk, operator overload selection)
+    # from the source of the imported code (py2mini, src_compiler.py); a failure is raised after the other generators ran
+    src_failure = None
+    try:
+        from . import gen_src, src_compiler
+        info.update(gen_src.generate('lookup'))
+        info.update(gen_src.generate('compiler'))
+        info['src_compiler_outside_fragment'] = dict(src_compiler.Group.skipped)
+    except Exception as e:  # noqa: BLE001  (reported by run.py as translator-failed)
+        src_failure = e
     n, bad = agg_dtype_rule_check()
     info['aggregate_dtype_rule_checks'] = n
     bad += schema_tie_check()
     if bad:
         raise RuntimeError('model assumptions about the live classes broken: ' + '; '.join(bad[:5]))
+    if src_failure is not None:
+        raise src_failure
     return info
 
 
